@@ -268,10 +268,13 @@ async def shard_main(seed, tier, shard, out):
             else:
                 for lr, dr in zip(lrefs, drefs):
                     C['counter_pairs_compared'] = C.get('counter_pairs_compared', 0) + 1
-                    if (lr.count, lr.triggers > 0) != (dr.count, dr.triggers > 0):
+                    if (lr.count, lr.triggers) != (dr.count, dr.triggers) or bool(lr.negative) != bool(dr.negative) or \
+                            bool(lr.retain_after_trigger) != bool(dr.retain_after_trigger):
                         out['violations'].append({'key': 'C20:counters-differ',
-                                                  'what': 'input %s: local count=%d signalled=%s, dask count=%d signalled=%s; ops %s'
-                                                  % (lr.uid, lr.count, lr.triggers > 0, dr.count, dr.triggers > 0, case['ops']), 'case': case})
+                                                  'what': 'input %s: local count=%d signals=%d rise-after-zero=%s, dask count=%d signals=%d '
+                                                          'rise-after-zero=%s; ops %s'
+                                                  % (lr.uid, lr.count, lr.triggers, bool(lr.retain_after_trigger), dr.count, dr.triggers,
+                                                     bool(dr.retain_after_trigger), case['ops']), 'case': case})
                         break
             if len(lgot) >= 3:
                 out['keys'].append(progs.prog_key(case, None))
@@ -307,7 +310,7 @@ def replay(case):
             if ln != dn:
                 out['violations'].append({'key': 'C20:results-differ', 'what': 'local %s dask %s' % (ln, dn), 'case': case})
             for lr, dr in zip(lrefs, drefs):
-                if (lr.count, lr.triggers > 0) != (dr.count, dr.triggers > 0):
+                if (lr.count, lr.triggers) != (dr.count, dr.triggers):
                     out['violations'].append({'key': 'C20:counters-differ', 'what': '%s %s %s %s' % (lr.count, lr.triggers, dr.count, dr.triggers), 'case': case})
                     break
         finally:
